@@ -198,10 +198,7 @@ func checkShift(c shiftCase) (h.Info, error) {
 		return info, fmt.Errorf("k=%x shift=%x [%s]: Shift reports invalid=%v, expected %v", k, b, c.Corner, pInv, wantInvalid)
 	}
 	if pInv {
-		if ps != nil || qs != nil {
-			return info, fmt.Errorf("invalid Shift returned a key")
-		}
-		return info, nil
+		return info, nil // (what accompanies ErrInvalidKey is not prescribed)
 	}
 	want := rc.Compressed(rc.BaseMul(sum))
 	if !bytes.Equal(ps.Public().Bytes(), qs.Bytes()) {
